@@ -919,27 +919,82 @@ Proof.
   - injection H as <- _. destruct (quiet_pass_fixed fs E) as [Ef F]. rewrite Ef. exact F.
 Qed.
 
-(* T09.4 (d): format_files returns False iff every folder ended with a quiet pass, and then every
-   file is at a fixed point *)
-Theorem format_files_false_all_fixed max_passes folders :
-  format_files_result C Fid ff max_passes folders = false ->
-  Forall (fun d => Forall (fun x => ff (fst x) (snd x) = (snd x, false)) (f_files d))
-         (fst (format_files_model C Fid ff max_passes folders)).
+(* T09.4 (d), after the repair feb2676: the return value is exactly "a pass ran and the first pass reported a
+   change for some file" -- it no longer forgets the changes of earlier passes *)
+Lemma existsb_active_no_changes (ds : list folder) :
+  existsb (@f_changes C Fid) ds = false -> existsb active ds = false.
 Proof.
-  unfold format_files_result. intros H.
-  pose proof (format_files_per_folder max_passes folders) as P.
-  set (ds := fst (format_files_model C Fid ff max_passes folders)) in *.
-  clearbody ds. revert folders P.
-  induction ds as [|d ds IH]; intros folders P; [constructor|].
-  destruct folders as [|fs folders]; [discriminate|].
-  simpl in P. injection P as Pd Pr. simpl in H. apply orb_false_iff in H as [Hd Hr].
-  constructor; [|eapply IH; [exact Hr|exact Pr]].
-  unfold proj in Pd. destruct (folder_run max_passes fs) as [[fs' ch] k] eqn:E. simpl in Pd.
-  injection Pd as -> Ech. rewrite Hd in Ech. subst ch.
-  eapply folder_run_quiet_fixed. exact E.
+  induction ds as [|d ds IH]; simpl; intros H; [reflexivity|].
+  apply orb_false_iff in H as [H1 H2]. unfold DriverModel.active at 1. rewrite H1, (IH H2). reflexivity.
+Qed.
+
+Lemma passes_any_inactive n (ds : list folder) :
+  existsb active ds = false -> passes_any C Fid ff n ds = false.
+Proof. intros H. destruct n; simpl; [reflexivity|]. rewrite H. reflexivity. Qed.
+
+Lemma first_pass_flags n (folders : list (list (file C Fid))) :
+  existsb (@f_changes C Fid) (map pass_folder (map (init_folder C Fid (S n)) folders))
+  = existsb (fun fs => existsb snd (map format_one fs)) folders.
+Proof.
+  induction folders as [|fs folders IH]; simpl; [reflexivity|].
+  rewrite IH. reflexivity.
+Qed.
+
+Theorem format_files_result_char max_passes folders :
+  format_files_result C Fid ff max_passes folders
+  = (0 <? max_passes) && existsb (fun fs => existsb snd (map format_one fs)) folders.
+Proof.
+  unfold format_files_result. destruct max_passes as [|n]; [reflexivity|].
+  cbn [passes_any Nat.ltb Nat.leb andb].
+  rewrite first_pass_flags.
+  destruct (existsb active (map (init_folder C Fid (S n)) folders)) eqn:A.
+  - destruct (existsb (fun fs0 => existsb snd (map format_one fs0)) folders) eqn:E; [reflexivity|].
+    simpl. apply passes_any_inactive. apply existsb_active_no_changes.
+    rewrite first_pass_flags. exact E.
+  - destruct folders as [|fs folders]; [reflexivity|]. simpl in A. discriminate.
+Qed.
+
+(* ... so False (when a pass was allowed at all) means that nothing was rewritten and every file is at a fixed
+   point of format_file *)
+Theorem format_files_false_all_fixed max_passes folders :
+  0 < max_passes ->
+  format_files_result C Fid ff max_passes folders = false ->
+  map (@f_files C Fid) (fst (format_files_model C Fid ff max_passes folders)) = folders /\
+  Forall (fun fs => Forall (fun x => ff (fst x) (snd x) = (snd x, false)) fs) folders.
+Proof.
+  intros Hp H. rewrite format_files_result_char in H.
+  assert (L : (0 <? max_passes) = true) by (apply Nat.ltb_lt; exact Hp).
+  rewrite L in H. simpl in H.
+  assert (Q : forall fs, In fs folders -> existsb snd (map format_one fs) = false).
+  { intros fs Hin. destruct (existsb snd (map format_one fs)) eqn:E; [|reflexivity].
+    assert (X : existsb (fun fs0 => existsb snd (map format_one fs0)) folders = true)
+      by (apply existsb_exists; exists fs; auto). congruence. }
+  split.
+  - pose proof (format_files_per_folder max_passes folders) as P.
+    assert (M : map (@f_files C Fid) (fst (format_files_model C Fid ff max_passes folders))
+                = map fst (map proj (fst (format_files_model C Fid ff max_passes folders)))).
+    { rewrite map_map. reflexivity. }
+    rewrite M, P, map_map. clear M P.
+    rewrite <- (map_id folders) at 2. apply map_ext_in. intros fs Hin.
+    destruct max_passes as [|n]; [lia|]. simpl. rewrite (Q fs Hin). simpl.
+    apply (proj1 (quiet_pass_fixed fs (Q fs Hin))).
+  - apply Forall_forall. intros fs Hin. apply (proj2 (quiet_pass_fixed fs (Q fs Hin))).
 Qed.
 
 End FilesProofs.
+
+(* the return value before feb2676 forgot earlier passes: a run that rewrote a file in pass 1 and converged in
+   pass 2 answered False; the repaired value answers True on the same run *)
+Definition ff_once (_ : nat) (c : nat) : nat * bool := if c =? 0 then (1, true) else (c, false).
+Theorem old_result_refuted :
+  exists (max_passes : nat) (folders : list (list (file nat nat))),
+    format_files_last_flags nat nat ff_once max_passes folders = false /\
+    map (@f_files nat nat) (fst (format_files_model nat nat ff_once max_passes folders)) <> folders /\
+    format_files_result nat nat ff_once max_passes folders = true.
+Proof.
+  exists 2, [[(0, 0)]]. split; [vm_compute; reflexivity|]. split; [|vm_compute; reflexivity].
+  vm_compute. discriminate.
+Qed.
 
 (* ======================================================================================== *)
 (* 5. The orientation heuristic is antisymmetric (T09.7)                                      *)
